@@ -1,10 +1,12 @@
 package vkit
 
 import (
+	"context"
 	"fmt"
 	"net/http"
 	"time"
 
+	"github.com/zitadel/oidc/v3/pkg/oidc"
 	"github.com/zitadel/oidc/v3/pkg/op"
 )
 
@@ -44,6 +46,18 @@ type ProviderSpec struct {
 	Device           DeviceCfg               `json:"device"`
 	Endpoints        map[string]EndpointSpec `json:"endpoints,omitempty"` // keys: authorization token introspection userinfo revocation end_session keys device_authorization
 	CryptoKey        byte                    `json:"crypto_key,omitempty"`
+	// LaxSubject: the application overrides OpenIDProvider.JWTProfileVerifier (by embedding *op.Provider, the documented way
+	// to customise a provider) with a verifier whose SubjectCheck lets iss != sub through (delegation). The issuer must still
+	// be the client whose key signed the assertion, and the authenticated client is that issuer.
+	LaxSubject bool `json:"lax_subject,omitempty"`
+}
+
+// laxSubjectProvider is an op.Provider whose JWT-profile verifier accepts assertions with sub != iss.
+type laxSubjectProvider struct{ *op.Provider }
+
+func (l laxSubjectProvider) JWTProfileVerifier(ctx context.Context) *op.JWTProfileVerifier {
+	return op.NewJWTProfileVerifier(l.Storage(), op.IssuerFromContext(ctx), time.Hour, time.Second,
+		op.SubjectCheck(func(*oidc.JWTTokenRequest) error { return nil }))
 }
 
 // DefaultProviderSpec: everything enabled, static https issuer.
@@ -198,8 +212,14 @@ func Build(spec ProviderSpec, store *Store) (*SUT, error) {
 		return nil, err
 	}
 	sut := &SUT{Spec: spec, Store: store, Provider: p, Paths: paths, Host: "op.example.com"}
+	var oidp op.OpenIDProvider = p
+	if spec.LaxSubject {
+		oidp = laxSubjectProvider{p}
+	}
 	if spec.Router == "legacy" {
-		sut.Handler = op.RegisterLegacyServer(op.NewLegacyServer(p, legacyEP), op.AuthorizeCallbackHandler(p), op.WithFallbackLogger(DiscardLogger()))
+		sut.Handler = op.RegisterLegacyServer(op.NewLegacyServer(oidp, legacyEP), op.AuthorizeCallbackHandler(oidp), op.WithFallbackLogger(DiscardLogger()))
+	} else if spec.LaxSubject {
+		sut.Handler = op.CreateRouter(oidp)
 	} else {
 		sut.Handler = p
 	}
